@@ -660,7 +660,7 @@ pub fn run(ctx: &Ctx) {
         crate::engine::Tier::Quick => 12,
         crate::engine::Tier::Thorough => 15,
     };
-    ctx.run_generated(&Registry, ctx.tier.pick(500, 15_000), || history_strategy(max));
+    ctx.run_generated(&Registry, ctx.tier.pick(1_000, 20_000), || history_strategy(max));
 }
 
 pub fn replay(w: &mut Worker, sub: &str, case: &serde_json::Value) -> Option<Verdict> {
